@@ -1,6 +1,10 @@
 #!/bin/bash
-# usage: seed_check.sh <patch file> <Cxx> [<Cyy> ...]   -- applies the patch to /repo, runs the quick checks, undoes it
+# usage: seed_check.sh <patch file> <Cxx> [<Cyy> ...]   -- applies the patch to /repo, runs the quick checks, undoes it.
+# The evidence files of the checked properties are saved and restored: committed evidence must come from the unchanged tree.
 P=$1; shift
 git -C /repo apply "$P" || { echo "patch does not apply to /repo"; exit 2; }
+mkdir -p /tmp/seed/evbak
+for c in "$@"; do cp /verif/evidence/$c.json /tmp/seed/evbak/$c.json 2>/dev/null; done
 for c in "$@"; do (cd /verif && ./check $c quick; echo "rc=$?"); done
+for c in "$@"; do cp /tmp/seed/evbak/$c.json /verif/evidence/$c.json 2>/dev/null; done
 git -C /repo checkout -- . ; git -C /repo status --short
